@@ -24,7 +24,7 @@ func checkC02(p *Prog, res *Result, tier string) {
 	res.Explanation = "R1 the two counters of the TSO implementation are touched only through sync/atomic; the dealt counter is written only by AddUint64(+1) in Deal (whose result is returned), StoreUint64 in Init and a CompareAndSwap in Commit guarded by old < new (monotone raise) — premises of 'one atomic fetch-add per attempt' from which uniqueness and real-time order of allocations follow; R2 the revision in every version key written to storage (and hence in the new index value, C01-R2) is an allocated revision, followed through helper parameters; R3 only the sequencer, the leader-start callback, the follower sync and pass-throughs may reset the counters; R4 for each response of the backend that carries a header revision h and a key-value with revision d, h >= d is established by one of the proof forms (h = max(.., d) as helper call or compare-and-assign, h == d, or h allocated after the read that produced d)."
 	res.NotDecided = "real-time order of responses (only of allocations); the engine timestamp used to seed the counter (C15); revisions of range results against the header when the client names an explicit read revision (recorded finding)."
 	res.Assumptions = []string{"sync/atomic semantics", "C01-R1..R4 hold (per-key monotonicity needs the index CAS discipline)"}
-	res.rule("C02-R1", "TSO counters: atomic-only access; dealt counter written only by +1 in Deal, Store in Init, guarded monotone CAS in Commit", 6)
+	res.rule("C02-R1", "TSO counters: atomic-only access; dealt counter written only by +1 in Deal, Store in Init, guarded monotone CAS in Commit; committed counter only by Store in Init and guarded monotone CAS in Commit", 6)
 	res.rule("C02-R2", "every version key written to storage carries an allocated revision", 5)
 	res.rule("C02-R3", "only the sequencer, the leader-start callback, the follower sync and pass-throughs call TSO.Init/Commit/SetCurrentRevision", 3)
 	res.rule("C02-R5", "along one key's history revisions increase: guards of the index CAS (create over a tombstone only if prevRevision < revision; delete only if newRevision > modRevision) — C01-R3/R4, evaluated atomically by every engine (C01-R6)", 12)
@@ -32,147 +32,7 @@ func checkC02(p *Prog, res *Result, tier string) {
 	res.rule("C02-R4", "each backend response with header revision h and data revision d establishes h >= d by an accepted proof form", 5)
 
 	// ---- R1 ----
-	for _, impl := range p.implsOf(r.TSODeal) {
-		recv := impl.Signature.Recv().Type()
-		named, _ := recv.(*types.Named)
-		if pt, ok := recv.(*types.Pointer); ok {
-			named, _ = pt.Elem().(*types.Named)
-		}
-		if named == nil {
-			continue
-		}
-		st, ok := named.Underlying().(*types.Struct)
-		if !ok {
-			res.und("C02-R1", named.Obj().Name(), "-", "TSO implementation is not a struct")
-			continue
-		}
-		tname := named.Obj().Name()
-		// classify fields by role: the field AddUint64'ed in Deal is the dealt counter; the one loaded in GetRevision the committed counter
-		var dealt, committed *types.Var
-		for _, c := range callsIn(impl) {
-			if n, ok := isAtomicCall(c); ok && n == "AddUint64" {
-				if fa, ok := c.Common().Args[0].(*ssa.FieldAddr); ok {
-					dealt = fieldOf(fa)
-				}
-			}
-		}
-		for _, g := range p.implsOf(r.TSOGetRevision) {
-			if g.Signature.Recv().Type() != impl.Signature.Recv().Type() {
-				continue
-			}
-			for _, c := range callsIn(g) {
-				if n, ok := isAtomicCall(c); ok && n == "LoadUint64" {
-					if fa, ok := c.Common().Args[0].(*ssa.FieldAddr); ok {
-						committed = fieldOf(fa)
-					}
-				}
-			}
-		}
-		if dealt == nil {
-			res.bad("C02-R1", tname+".Deal: atomic increment", p.pos(impl.Pos()), "Deal does not allocate through sync/atomic.AddUint64 on a field of the TSO")
-			continue
-		}
-		// Deal returns the result of AddUint64(&dealt, 1)
-		{
-			good := false
-			for _, b := range impl.Blocks {
-				if ret, ok := b.Instrs[len(b.Instrs)-1].(*ssa.Return); ok {
-					if c, ok := resolve(ret.Results[0]).(*ssa.Call); ok {
-						if n, isA := isAtomicCall(c); isA && n == "AddUint64" {
-							if k, ok := constInt(c.Common().Args[1]); ok && k == 1 {
-								good = true
-								continue
-							}
-						}
-					}
-					good = false
-					break
-				}
-			}
-			if good {
-				res.ok("C02-R1", tname+".Deal: returns AddUint64(&dealt, 1)", p.pos(impl.Pos()), "one atomic fetch-add per attempt")
-			} else {
-				res.bad("C02-R1", tname+".Deal: returns AddUint64(&dealt, 1)", p.pos(impl.Pos()), "Deal does not return the result of a single atomic increment by 1: two attempts can obtain the same revision")
-			}
-		}
-		for i := 0; i < st.NumFields(); i++ {
-			fv := st.Field(i)
-			role := "field " + fv.Name()
-			if fv == dealt {
-				role = "dealt counter"
-			} else if fv == committed {
-				role = "committed counter"
-			}
-			n := 0
-			for _, fa := range p.fields().addrs[fv] {
-				f := fa.Parent()
-				for _, ref := range *fa.Referrers() {
-					if _, dbg := ref.(*ssa.DebugRef); dbg {
-						continue
-					}
-					n++
-					construct := fmt.Sprintf("%s.%s accessed in %s #%d", tname, fv.Name(), funcName(f), n)
-					c, isCall := ref.(ssa.CallInstruction)
-					an, isAtomic := "", false
-					if isCall {
-						an, isAtomic = isAtomicCall(c)
-					}
-					if !isAtomic {
-						res.bad("C02-R1", construct, p.pos(ref.Pos()), "the "+role+" is accessed without sync/atomic: allocations are no longer one atomic step")
-						continue
-					}
-					isWrite := an != "LoadUint64"
-					if !isWrite || fv != dealt {
-						res.ok("C02-R1", construct, p.pos(ref.Pos()), role+": atomic."+an)
-						continue
-					}
-					// writers of the dealt counter
-					isImplOf := func(m *types.Func) bool {
-						for _, x := range p.implsOf(m) {
-							if x == f {
-								return true
-							}
-						}
-						return false
-					}
-					switch {
-					case an == "AddUint64" && isImplOf(r.TSODeal):
-						res.ok("C02-R1", construct, p.pos(ref.Pos()), "the allocation itself")
-					case an == "StoreUint64" && isImplOf(r.TSOInit):
-						res.ok("C02-R1", construct, p.pos(ref.Pos()), "Init (who may call it: R3)")
-					case an == "CompareAndSwapUint64" && isImplOf(r.TSOCommit):
-						old, nw := c.Common().Args[1], c.Common().Args[2]
-						g := false
-						for _, cf := range dominatingFacts(ref.Block()) {
-							if cf.X == nil {
-								continue
-							}
-							if resolve(cf.X) == resolve(old) && resolve(cf.Y) == resolve(nw) && ((cf.Op == token.LSS && cf.Want) || (cf.Op == token.GEQ && !cf.Want)) {
-								g = true
-							}
-							if resolve(cf.Y) == resolve(old) && resolve(cf.X) == resolve(nw) && ((cf.Op == token.GTR && cf.Want) || (cf.Op == token.LEQ && !cf.Want)) {
-								g = true
-							}
-						}
-						// old must be a load of the same counter
-						lc, isLoad := resolve(old).(*ssa.Call)
-						if isLoad {
-							ln, _ := isAtomicCall(lc)
-							lfa, okfa := lc.Common().Args[0].(*ssa.FieldAddr)
-							isLoad = ln == "LoadUint64" && okfa && fieldOf(lfa) == dealt
-						}
-						if g && isLoad {
-							res.ok("C02-R1", construct, p.pos(ref.Pos()), "monotone raise: CAS(old, new) under old < new with old loaded from the counter")
-						} else {
-							res.bad("C02-R1", construct, p.pos(ref.Pos()), "Commit moves the dealt counter without the guard old < new on the loaded value: the counter can go backwards and revisions be handed out twice")
-						}
-					default:
-						res.bad("C02-R1", construct, p.pos(ref.Pos()), fmt.Sprintf("atomic.%s writes the dealt counter outside Deal(+1)/Init(store)/Commit(guarded CAS): revisions can repeat or go backwards", an))
-					}
-				}
-			}
-		}
-	}
+	checkTSOCounters(p, r, res, "C02-R1")
 
 	// ---- R2 ----
 	a := &allocInfo{p: p, r: r}
@@ -726,4 +586,155 @@ func checkRangeHeader(p *Prog, r *Roles, res *Result) {
 			}
 		}
 	}
+}
+
+// checkTSOCounters: the two counters of the revision allocator (see the rule text of C02-R1).
+func checkTSOCounters(p *Prog, r *Roles, res *Result, rule string) {
+	for _, impl := range p.implsOf(r.TSODeal) {
+		recv := impl.Signature.Recv().Type()
+		named, _ := recv.(*types.Named)
+		if pt, ok := recv.(*types.Pointer); ok {
+			named, _ = pt.Elem().(*types.Named)
+		}
+		if named == nil {
+			continue
+		}
+		st, ok := named.Underlying().(*types.Struct)
+		if !ok {
+			res.und(rule, named.Obj().Name(), "-", "TSO implementation is not a struct")
+			continue
+		}
+		tname := named.Obj().Name()
+		// classify fields by role: the field AddUint64'ed in Deal is the dealt counter; the one loaded in GetRevision the committed counter
+		var dealt, committed *types.Var
+		for _, c := range callsIn(impl) {
+			if n, ok := isAtomicCall(c); ok && n == "AddUint64" {
+				if fa, ok := c.Common().Args[0].(*ssa.FieldAddr); ok {
+					dealt = fieldOf(fa)
+				}
+			}
+		}
+		for _, g := range p.implsOf(r.TSOGetRevision) {
+			if !types.Identical(g.Signature.Recv().Type(), impl.Signature.Recv().Type()) {
+				continue
+			}
+			for _, c := range callsIn(g) {
+				if n, ok := isAtomicCall(c); ok && n == "LoadUint64" {
+					if fa, ok := c.Common().Args[0].(*ssa.FieldAddr); ok {
+						committed = fieldOf(fa)
+					}
+				}
+			}
+		}
+		if dealt == nil {
+			res.bad(rule, tname+".Deal: atomic increment", p.pos(impl.Pos()), "Deal does not allocate through sync/atomic.AddUint64 on a field of the TSO")
+			continue
+		}
+		// Deal returns the result of AddUint64(&dealt, 1)
+		{
+			good := false
+			for _, b := range impl.Blocks {
+				if ret, ok := b.Instrs[len(b.Instrs)-1].(*ssa.Return); ok {
+					if c, ok := resolve(ret.Results[0]).(*ssa.Call); ok {
+						if n, isA := isAtomicCall(c); isA && n == "AddUint64" {
+							if k, ok := constInt(c.Common().Args[1]); ok && k == 1 {
+								good = true
+								continue
+							}
+						}
+					}
+					good = false
+					break
+				}
+			}
+			if good {
+				res.ok(rule, tname+".Deal: returns AddUint64(&dealt, 1)", p.pos(impl.Pos()), "one atomic fetch-add per attempt")
+			} else {
+				res.bad(rule, tname+".Deal: returns AddUint64(&dealt, 1)", p.pos(impl.Pos()), "Deal does not return the result of a single atomic increment by 1: two attempts can obtain the same revision")
+			}
+		}
+		for i := 0; i < st.NumFields(); i++ {
+			fv := st.Field(i)
+			role := "field " + fv.Name()
+			if fv == dealt {
+				role = "dealt counter"
+			} else if fv == committed {
+				role = "committed counter"
+			}
+			n := 0
+			for _, fa := range p.fields().addrs[fv] {
+				f := fa.Parent()
+				for _, ref := range *fa.Referrers() {
+					if _, dbg := ref.(*ssa.DebugRef); dbg {
+						continue
+					}
+					n++
+					construct := fmt.Sprintf("%s.%s accessed in %s #%d", tname, fv.Name(), funcName(f), n)
+					c, isCall := ref.(ssa.CallInstruction)
+					an, isAtomic := "", false
+					if isCall {
+						an, isAtomic = isAtomicCall(c)
+					}
+					if !isAtomic {
+						res.bad(rule, construct, p.pos(ref.Pos()), "the "+role+" is accessed without sync/atomic: allocations are no longer one atomic step")
+						continue
+					}
+					isWrite := an != "LoadUint64"
+					if !isWrite || (fv != dealt && fv != committed) {
+						res.ok(rule, construct, p.pos(ref.Pos()), role+": atomic."+an)
+						continue
+					}
+					// writers of the dealt counter, and of the committed counter (the revision reads are served at): it
+					// has no Deal, everything else is the same - Init stores, Commit raises under a guard
+					isImplOf := func(m *types.Func) bool {
+						for _, x := range p.implsOf(m) {
+							if x == f {
+								return true
+							}
+						}
+						return false
+					}
+					switch {
+					case an == "AddUint64" && isImplOf(r.TSODeal) && fv == dealt:
+						res.ok(rule, construct, p.pos(ref.Pos()), "the allocation itself")
+					case an == "StoreUint64" && isImplOf(r.TSOInit):
+						res.ok(rule, construct, p.pos(ref.Pos()), "Init (who may call it: R3)")
+					case an == "CompareAndSwapUint64" && isImplOf(r.TSOCommit):
+						old, nw := c.Common().Args[1], c.Common().Args[2]
+						g := false
+						for _, cf := range dominatingFacts(ref.Block()) {
+							if cf.X == nil {
+								continue
+							}
+							if resolve(cf.X) == resolve(old) && resolve(cf.Y) == resolve(nw) && ((cf.Op == token.LSS && cf.Want) || (cf.Op == token.GEQ && !cf.Want)) {
+								g = true
+							}
+							if resolve(cf.Y) == resolve(old) && resolve(cf.X) == resolve(nw) && ((cf.Op == token.GTR && cf.Want) || (cf.Op == token.LEQ && !cf.Want)) {
+								g = true
+							}
+						}
+						// old must be a load of the same counter
+						lc, isLoad := resolve(old).(*ssa.Call)
+						if isLoad {
+							ln, _ := isAtomicCall(lc)
+							lfa, okfa := lc.Common().Args[0].(*ssa.FieldAddr)
+							isLoad = ln == "LoadUint64" && okfa && fieldOf(lfa) == fv
+						}
+						if g && isLoad {
+							res.ok(rule, construct, p.pos(ref.Pos()), "monotone raise: CAS(old, new) under old < new with old loaded from the counter")
+						} else {
+							res.bad(rule, construct, p.pos(ref.Pos()), "Commit moves the "+role+" without the guard old < new on the loaded value: the counter can go backwards (dealt counter: revisions handed out twice; committed counter: the read revision drops below acknowledged writes)")
+						}
+					default:
+						if fv == committed {
+							res.bad(rule, construct, p.pos(ref.Pos()), fmt.Sprintf("atomic.%s writes the committed counter outside Init(store)/Commit(guarded CAS): a value that arrives late (a follower's sync overtaken by this node's start as leader) lowers the revision reads are served at below writes that were already acknowledged", an))
+						} else {
+							res.bad(rule, construct, p.pos(ref.Pos()), fmt.Sprintf("atomic.%s writes the dealt counter outside Deal(+1)/Init(store)/Commit(guarded CAS): revisions can repeat or go backwards", an))
+						}
+					}
+				}
+			}
+		}
+	}
+
 }
